@@ -117,3 +117,18 @@ def eval_dump(dumped):
 
 for _a in ALIASES:
     register(make(_a))
+
+
+# ---- first half of C14: column / key restriction and type maps of the readers -------------------------------------------
+# The readers are thin layers over external parsers (pyarrow.csv, pyarrow.parquet, json, csv) whose results no contract
+# within reach describes; the restriction law is therefore a BOUNDED run-time contract on the real readers (bounded/misc.py),
+# run in every tier, labelled bounded and never counted as proved.
+from pyvc.contract import bounded_only
+
+_WHY = ("reader over an external parser (pyarrow / json / csv): restricted read == selection of the full read is checked on the real "
+        "code over a stated small scope only")
+for _n in ("dataiter/data_frame.py::DataFrame.read_csv[restriction]", "dataiter/data_frame.py::DataFrame.read_parquet[restriction]",
+           "dataiter/data_frame.py::DataFrame.read_json[restriction]", "dataiter/data_frame.py::DataFrame.from_json[restriction]",
+           "dataiter/list_of_dicts.py::ListOfDicts.read_csv[restriction]", "dataiter/list_of_dicts.py::ListOfDicts.read_json[restriction]",
+           "dataiter/list_of_dicts.py::ListOfDicts.from_json[restriction]", "dataiter/geojson.py::GeoJSON.read[restriction]"):
+    bounded_only("C14", _n, _WHY)
